@@ -60,6 +60,46 @@ def _default_strings(fn: ast.FunctionDef, name: str) -> List[str]:
     return out
 
 
+def _format_strings(prog, fi, e: ast.AST, depth: int = 0) -> List[str]:
+    """Every literal string the format expression can evaluate to when the caller gives no format: literals, `x or "lit"`,
+    `"lit" if .. else x`, locals and their `if not x: x = "lit"` defaults, parameter defaults, module-level constants."""
+    if depth > 4 or e is None:
+        return []
+    if isinstance(e, ast.Constant):
+        return [e.value] if isinstance(e.value, str) else []
+    if isinstance(e, (ast.BoolOp, ast.IfExp)):
+        parts = e.values if isinstance(e, ast.BoolOp) else [e.body, e.orelse]
+        out: List[str] = []
+        for v in parts:
+            out += _format_strings(prog, fi, v, depth + 1)
+        return out
+    if isinstance(e, ast.Name):
+        out = []
+        local = False
+        for n in ast.walk(fi.node):
+            if isinstance(n, ast.Assign) and any(isinstance(t, ast.Name) and t.id == e.id for t in n.targets):
+                local = True
+                if not (isinstance(n.value, ast.Name) and n.value.id == e.id):
+                    out += _format_strings(prog, fi, n.value, depth + 1)
+        a = fi.node.args
+        pos = a.posonlyargs + a.args
+        for p_, d in zip(pos[len(pos) - len(a.defaults):], a.defaults):
+            if p_.arg == e.id:
+                local = True
+                out += _format_strings(prog, fi, d, depth + 1)
+        if e.id in [x.arg for x in pos + a.kwonlyargs]:
+            local = True
+        if not local:
+            mi = prog.modules.get(fi.module)
+            for n in (mi.tree.body if mi else []):
+                if isinstance(n, ast.Assign) and any(isinstance(t, ast.Name) and t.id == e.id for t in n.targets):
+                    out += _format_strings(prog, fi, n.value, depth + 1)
+                elif isinstance(n, ast.AnnAssign) and isinstance(n.target, ast.Name) and n.target.id == e.id and n.value is not None:
+                    out += _format_strings(prog, fi, n.value, depth + 1)
+        return out
+    return []
+
+
 def _derives_from_attr(fn: ast.FunctionDef, expr: ast.expr, attr: str) -> bool:
     """expr (or the single-assignment locals it names) mentions `.attr`."""
     seen = set()
@@ -250,12 +290,7 @@ def check(prog: Program, res: Result, tier: str) -> None:
             if f is None:
                 res.bad("IO-fmt", fi.short, desc, where, "no format given: numpy's default text format keeps ~8 digits")
                 continue
-            if isinstance(f, ast.Constant) and isinstance(f.value, str):
-                fmts = [f.value]
-            elif isinstance(f, ast.Name):
-                fmts = _default_strings(fi.node, f.id)
-            else:
-                fmts = []
+            fmts = sorted(set(_format_strings(prog, fi, f)))
             if not fmts:
                 res.undecided("IO-fmt", fi.short, desc, where, "format expression has no literal default in this function")
                 continue
@@ -582,7 +617,7 @@ def _layout(prog, res, exp, imp, eb, ib) -> None:
     for n in ast.walk(ef.node):
         if isinstance(n, ast.For) and isinstance(n.target, ast.Name):
             i = n.target.id
-            rng = ast.unparse(n.iter)
+            rng = ef.rtext(n.iter)          # `num_rows = data.shape[0]; range(num_rows)` reads as range(data.shape[0])
             for s in ast.walk(n):
                 if isinstance(s, ast.Subscript) and isinstance(s.value, ast.Name) and s.value.id == p and isinstance(s.slice, ast.Tuple) \
                         and len(s.slice.elts) == 2:
